@@ -581,10 +581,14 @@ package parse
 //@   ensures t.lex == nil
 //@ func lexWithInterner
 //@   assumed
-//@   ensures result != nil && isfresh(result) && result.items != nil
+//@   ensures result != nil && isfresh(result) && result.items != nil && result.input == input
+// The positions the lexer reports (and the nodes keep) are offsets into its input; ErrorContextPosition turns them
+// into line and column by slicing the text held by the tree, so the two must be the same text.
 //@ func (*Tree).parse
 //@   assumed
 //@   requires t != nil && t.lex != nil
+//@   requires t.text == t.lex.input
+//@   preserves t.text
 //@   modifies *
 //@   preserves t.lex
 //@   preserves t.lex.items
@@ -592,6 +596,7 @@ package parse
 //@ func (*Tree).Parse
 //@   requires t != nil
 //@   modifies *
+//@   ensures implies(result1 == nil, t.text == text)
 //@ func (Node).ArgPattern
 //@   nopanic
 //@   ensures result == node_argpattern(self)
@@ -617,3 +622,13 @@ package parse
 //@   nopanic
 //@ func (Namespace).GetNodeModulename
 //@   params mod
+
+// Positions (C10): the location text of a byte offset is "<name>:<line>:<column>" where the line is one more than the
+// number of line breaks before the offset and the column the number of bytes after the last of them.
+//@ define lineOf(text, pos) = 1 + strcount(text[:pos], "\n")
+//@ define colOf(text, pos) = pos - (lastindex(text[:pos], "\n") + 1)
+//@ func (*Tree).ErrorContextPosition
+//@   requires t != nil && 0 <= pos && pos <= len(t.text)
+//@   nopanic
+//@   ensures implies(ctx == "", result0 == t.ParseName + ":" + itoa(lineOf(t.text, pos)) + ":" + itoa(colOf(t.text, pos)))
+//@   ensures implies(ctx != "", result0 == t.ParseName + ":" + itoa(lineOf(t.text, pos)) + ":" + itoa(colOf(t.text, pos)) + ": " + ctx)
